@@ -38,7 +38,7 @@ def run(c):
     binary = gen(c)
     c.prove("SH.Props.C13", extra_files=["SH/Model/Wire.lean", "SH/Lemmas/Wire.lean", "SH/Lemmas/WireMP.lean", "SH/Lemmas/WirePB.lean",
                                            "SH/Lemmas/WirePB2.lean", "SH/Lemmas/WirePB3.lean", "SH/Lemmas/WirePB4.lean",
-                                           "SH/Lemmas/WireFuel.lean", "SH/Gen/C13.lean"])
+                                           "SH/Lemmas/WireFuel.lean", "SH/Lemmas/WirePBFuel.lean", "SH/Lemmas/WireAlloc.lean", "SH/Gen/C13.lean"])
     drv = c.driver(DRIVER)
     if binary and drv:
         # thorough: 6 chunks with derived seeds (the streams are tens of MB each; keep them out of memory one at a time)
@@ -70,20 +70,23 @@ META = {
     "text": ("Kernel-checked for ALL well-formed batches and both code variants: tl_roundtrip, msgpack_roundtrip, pb_roundtrip (with the varint "
              "round trip and the unpacked value/unique layouts) and hence all_formats_agree: parser.parse detects the TL, MessagePack and "
              "Protobuf encodings of a batch as their formats, reports no error and delivers the same name/tags/counter/ts/values/uniques/"
-             "histogram in order. Detection from the first bytes (both directions). Safety: all model functions are total; every MessagePack "
-             "allocation is bounded by the packet length (false on the pinned tree: 14-byte witness); no TL or MessagePack reader ever exhausts "
-             "its fuel and their batch loops terminate by consuming input (parse_terminates_non_pb); TCP framing: deframe . frame = id and any "
-             "chunking of any stream delivers the same frames with a buffer >= 4+MaxTCPFrameBody (constant regenerated from /repo). The model "
-             "(decoders AND the encoders used in the theorems) is tied to /repo by decoding every generated packet with the real parser.parse and "
-             "the compiled model and diffing format, error class, HandleParseError flag and every delivered metric field, by comparing the model "
-             "encoders with the real encoders byte for byte, and by replaying TCP streams through the real receiver."),
+             "histogram in order. Detection from the first bytes (both directions). Safety for ALL byte strings (decode_total): every model "
+             "function is total; parse_terminates - no reader of the TL, MessagePack or Protobuf decoder ever exhausts the fuel the model gives "
+             "it (len+1 per loop, len+1 for msgp.Skip, 2*len+2 for protowire's group skipper, by simultaneous induction), so every loop ends by "
+             "consuming input or a real error; allocation bounds for all three decoders: msgpack_alloc_bounded (false on the pinned tree: 14-byte "
+             "witness), tl_alloc_bounded and pb_alloc_bounded via instrumented readers whose result is proved identical to the model readers "
+             "(every make size after CheckLengthSanity / in StringReadBytes, every append growth step <= packet length). TCP framing: deframe . "
+             "frame = id, any chunking of any stream delivers the same frames with a buffer >= 4+MaxTCPFrameBody (constant regenerated from /repo), "
+             "and an oversize header always closes the connection (never hangs). The model (decoders AND the encoders used in the theorems) is "
+             "tied to /repo by decoding every generated packet with the real parser.parse and the compiled model and diffing format, error class, "
+             "HandleParseError flag and every delivered metric field, by comparing the model encoders with the real encoders byte for byte, and by "
+             "replaying TCP streams through the real receiver."),
     "note": ("Partial: (a) JSON is outside the Lean model (oracle only; known finding json-tag-key-not-unescaped in generated code); "
-             "(b) parse_terminates for packets handed to the Protobuf decoder is not proved (fuel sufficiency of pbBatch/pbMetric/pbEntry/pbCentroid/"
-             "pbPackedVar/pbSkip*); checked by the correspondence (Go can never print ret=fuel) and implied on encoder outputs by pb_roundtrip; "
-             "(c) allocation bounds for TL and Protobuf are not theorems: the model tracks `make` sizes only for MessagePack. By reading: TL readers "
-             "call CheckLengthSanity(4*l <= remaining) before make, protobuf.go only grows slices by append per decoded element and copies "
-             "ConsumeBytes payloads (<= remaining) - the crash/amplification oracle with 2^16..2^32-1 length bombs at every TL/pb site finds nothing; "
-             "(d) pb_roundtrip assumes each metric's encoding is < 2^32 bytes. "
+             "(b) parse_terminates / decode_total are stated for variants with the MessagePack length check (the current code); for the pinned "
+             "tree's MessagePack decoder only the allocation counterexample is proved; (c) the TL/Protobuf allocation amounts are those of the "
+             "instrumented readers tlBatchA/pbBatchA (SH/Lemmas/WireAlloc.lean): their result component is proved equal to the corresponded model "
+             "readers, but the amounts themselves (which make/append the Go code performs) are tied to the code by reading plus the crash/"
+             "amplification oracle, not by the diff; (d) pb_roundtrip assumes each metric's encoding is < 2^32 bytes. "
              "Genuine defects found on the pinned tree and fixed in /repo: msgpack allocation from untrusted lengths, protobuf unpacked unique / swallowed "
              "packed error (model = fixed behaviour, old behaviour kept as Variant.orig with decide witnesses). "
              "Trusted: Lean kernel, generator reach (distribution printed), Go runtime and kernel sockets, msgp/protowire versions in go.sum (modelled from source)."),
